@@ -310,20 +310,16 @@ fn fin_step(exclude_beyond_limit: bool) {
     core::mem::forget(r);
 }
 
-#[kani::proof]
-#[kani::unwind(6)]
-#[kani::stub(std::fmt::format, stub_fmt)]
-fn c11_stream_recv_fin_within_limit() {
-    fin_step(true);
-}
 
-/// PENDING (new suspected defect): neither `Recv::determin_size` nor `SizeKnown::recv` compares
-/// against `max_stream_data`; the per-stream limit is not enforced for the frame that carries FIN
-/// (nor for any later frame of that stream, which is only checked against the peer-chosen final
-/// size).
+
+/// The same step without any exclusion. On the pinned tree this failed (genuine defect: neither
+/// `Recv::determin_size` nor `SizeKnown::recv` compared against `max_stream_data`, so the per-stream
+/// limit was not enforced for the frame that carries FIN nor for any later frame of that stream);
+/// repaired in /repo by "fix: enforce the stream flow-control limit on the FIN path". Kept in the
+/// quick tier so that a regression is reported.
 #[kani::proof]
 #[kani::unwind(6)]
 #[kani::stub(std::fmt::format, stub_fmt)]
-fn c11_stream_recv_fin_beyond_limit() {
+fn c11_stream_recv_fin_any_end() {
     fin_step(false);
 }
